@@ -124,9 +124,9 @@ def run_c13(chk):
              'rational answers from spec/Geometry.tla, replayed into dist_euclidean under scalings 2^k, '
              'exactly representable translations and the axis swap; non-trivial = degenerate class '
              '(zero-length, parallel, collinear, touching, crossing) or clamped projection')
-    chk.assume('segment-to-segment: coordinate differences >= 2^-6 (its parallel test compares a cross product with an '
-               'absolute 1e-8); projection / point-to-segment: down to 2^-20 (edges of 1e-6 units; the zero-length test '
-               'is |dx|,|dy| <= 1e-8)')
+    chk.assume('coordinates down to a scale of 2^-16 for segment pairs and 2^-20 for projections (edges of 1e-5 .. 1e-6 '
+               'units); below that the zero-length test of the library (|dx|, |dy| <= 1e-8, taken as the resolution of '
+               'the API) interferes')
     chk.assume('TLC/SANY, CommunityModules Json; float <-> rational comparison tolerance 64 ulp of the largest '
                'coordinate + 1e-9 * scale')
     # lemmas of the specification itself (design level)
@@ -145,14 +145,14 @@ def run_c13(chk):
     nontriv = 0
     for case in rs.json:
         nt = case['cls'] != 'apart'
-        for ei, emb in enumerate(embs):
+        for ei, emb in enumerate(embs + EMBS_TINY[:2]):
             bad = check_seg(de, case, emb)
             if bad:
                 chk.violation('segment-to-segment: ' + bad[0],
                               {'kind': 'seg', 'case': case, 'emb': emb.desc(), 'got': bad[1]},
                               sig={'site': 'dist_euclidean.distance_segment_to_segment', 'cls': case['cls']})
         nontriv += nt
-    chk.count('seg', evaluations=len(rs.json) * len(embs), nontrivial=nontriv, traces=len(rs.json) * len(embs))
+    chk.count('seg', evaluations=len(rs.json) * (len(embs) + 2), nontrivial=nontriv, traces=len(rs.json) * (len(embs) + 2))
     chk.sample({'kind': 'seg', 'case': rs.json[len(rs.json) // 3], 'emb': embs[1].desc()})
     nontriv = 0
     for case in rp.json:
